@@ -8,6 +8,7 @@ from .base import Adapter, points_for, with_ids
 class TSP(Adapter):
     name = "tsp"
     module = "TSP"
+    multistart = True
     pad_steps = 0
 
     def family(self, tier, seed=0):
